@@ -9,17 +9,18 @@ The driver instantiates `F := Float` (`XL.Model.FloatNum`).
 -/
 namespace XL
 
-/-- the seven error values (`Error.errors`) -/
-inductive Err | null | div0 | value | ref | name | num | na
+/-- the seven error values (`Error.errors`) and the circular-reference marker `ERR_CIRCULAR`
+(`XlCircular`, a subclass of `XlError`: every function treats it as an error value) -/
+inductive Err | null | div0 | value | ref | name | num | na | circ
   deriving DecidableEq, Repr, Inhabited
 
 def Err.toString : Err → String
   | .null => "#NULL!" | .div0 => "#DIV/0!" | .value => "#VALUE!" | .ref => "#REF!"
-  | .name => "#NAME?" | .num => "#NUM!" | .na => "#N/A"
+  | .name => "#NAME?" | .num => "#NUM!" | .na => "#N/A" | .circ => "#CIRC!"
 
 def Err.ofString? : String → Option Err
   | "#NULL!" => some .null | "#DIV/0!" => some .div0 | "#VALUE!" => some .value | "#REF!" => some .ref
-  | "#NAME?" => some .name | "#NUM!" => some .num | "#N/A" => some .na | _ => none
+  | "#NAME?" => some .name | "#NUM!" => some .num | "#N/A" => some .na | "#CIRC!" => some .circ | _ => none
 
 /-- one Excel value: number, text, logical, blank cell (`sh.EMPTY`) or error -/
 inductive Val (F : Type)
